@@ -28,13 +28,14 @@ BOUNDS = {"quick": "A: length <= 7 (line), 5-6 (netstring), 5-7 (intN); B: <= 3 
           "thorough": "A: length <= 8 (line), 6-7 (netstring), 6-8 (intN); B: <= 4 tokens; C: <= 3 messages"}
 ASSUMPTIONS = [
     "deliveries stop at the first transport.loseConnection (as a TCP transport does); events after it are ignored",
-    "a paused receiver gets no further delivery before the harness resumes it (a reactor turn later)",
+    "a paused receiver is resumed by the harness right after the delivery that paused it, or (second mode) "
+    "after exactly one more delivery has arrived while it was paused",
     "an oversize notification for a still incomplete line is accepted (not required) once the bytes seen cannot "
     "be completed to a line within MAX_LENGTH; for netstrings a too-large partial length may or may not close early",
     "oversize notification arguments are ignored except IntNStringReceiver.lengthLimitExceeded(length)",
 ]
-MIN = {"quick": {"evaluations": 1200000, "nontrivial": 800000, "outcomes": 10},
-       "thorough": {"evaluations": 8000000, "nontrivial": 5000000, "outcomes": 10}}
+MIN = {"quick": {"evaluations": 2700000, "nontrivial": 400000, "outcomes": 10},
+       "thorough": {"evaluations": 33000000, "nontrivial": 3400000, "outcomes": 10}}
 
 KNOWN_LINEONLY = "LineOnlyReceiver:oversize-at-max-with-split-delimiter"
 KNOWN_INTN = "IntNStringReceiver:resumeProducing-inside-stringReceived-redelivers"
@@ -189,19 +190,30 @@ def normalise(log):
     return out
 
 
-def execute(kind, maxlen, delim, segs):
+def execute(kind, maxlen, delim, segs, late=False):
+    """late: after a pause the harness resumes only after one more delivery has arrived (a transport that
+    had already read the next segment), otherwise right after the delivery that paused."""
     p, t = make(kind, maxlen, delim)
     p.cap = 4 + sum(len(s) for s in segs)          # every legitimate event consumes at least one byte
+
+    def resume():
+        n = 0
+        while p.harness_paused and not t.disconnecting and n < 40:
+            p.harness_paused = False
+            p.resumeProducing()
+            n += 1
     try:
+        owed = False
         for seg in segs:
             if t.disconnecting:
                 break
             p.dataReceived(seg)
-            n = 0
-            while p.harness_paused and not t.disconnecting and n < 40:
-                p.harness_paused = False
-                p.resumeProducing()
-                n += 1
+            if late and p.harness_paused and not owed:
+                owed = True
+                continue
+            owed = False
+            resume()
+        resume()
     except Runaway:
         got = normalise(p.log)
         return got if got and got[-1] == ("C",) else got + [("RUNAWAY",)]
@@ -358,6 +370,10 @@ def classify(kind, maxlen, delim, stream, segs, got, req, opt, frames):
     if g is not None and r is None:
         return name + {"M": ":spurious-message", "X": ":spurious-oversize", "C": ":spurious-close",
                        "R": ":spurious-raw-data", "RUNAWAY": ":unbounded-redelivery"}[g[0]]
+    if g[0] == "C" and r[0] in "MR":
+        return name + ":closed-instead-of-delivering"
+    if g[0] in "MR" and r[0] == "C":
+        return name + ":delivered-instead-of-closing"
     if g is not None and g[0] == "X" and r[0] == "X":
         return name + ":oversize-length-argument"
     return name + ":event-log-differs"
@@ -490,23 +506,29 @@ def check_stream(st, cfg, s, tier, seen):
     if opt:
         st.outcome("optional-tail-oversize")
     whole = None
+    modes = (False, True) if (KINDS[kind].pausable and b"p" in s) else (False,)
     for segs in all_segs(s, tier):
-        got = execute(kind, m, delim, segs)
-        st.evaluations += 1
-        if whole is None:
-            whole = got
-        cutpos = inside_frame(kind, delim, segs, frames, s)
-        if cutpos:
-            st.nt(hash((kind, m, delim, s, cutpos)))
-            st.count("segmentations_cutting_a_frame")
-        sig = classify(kind, m, delim, s, segs, got, req, opt, frames)
-        if sig is None and got != whole and classify(kind, m, delim, s, (s,), whole, req, opt, frames) is None:
-            sig = NAMES[kind] + ":segmentation-changes-events"
-        if sig is not None:
-            st.violation(sig, {"stream": s, "segments": list(segs), "got": got, "reference": req, "optional": opt,
-                               "whole_delivery": whole, "MAX_LENGTH": m},
-                         {"kind": kind, "max": m, "delim": delim, "segments": list(segs), "mode": "recv"})
-            st.outcome("violation")
+        for late in modes:
+            if late and len(segs) < 2:
+                continue
+            got = execute(kind, m, delim, segs, late)
+            st.evaluations += 1
+            if whole is None:
+                whole = got
+            cutpos = inside_frame(kind, delim, segs, frames, s)
+            if cutpos:
+                st.nt(hash((kind, m, delim, s, cutpos)))
+                st.count("segmentations_cutting_a_frame")
+            if late:
+                st.outcome("delivery-while-paused")
+            sig = classify(kind, m, delim, s, segs, got, req, opt, frames)
+            if sig is None and got != whole and classify(kind, m, delim, s, (s,), whole, req, opt, frames) is None:
+                sig = NAMES[kind] + ":segmentation-changes-events"
+            if sig is not None:
+                st.violation(sig, {"stream": s, "segments": list(segs), "got": got, "reference": req, "optional": opt,
+                                   "whole_delivery": whole, "MAX_LENGTH": m, "resume_after_next_delivery": late},
+                             {"kind": kind, "max": m, "delim": delim, "segments": list(segs), "mode": "recv", "late": late})
+                st.outcome("violation")
 
 
 def send_case(kind, m, delim, msgs):
@@ -594,7 +616,7 @@ def replay(w):
         segs = tuple(w["segments"])
         s = b"".join(segs)
         req, opt, frames = reference(kind, m, delim, s)
-        got = execute(kind, m, delim, segs)
+        got = execute(kind, m, delim, segs, bool(w.get("late")))
         sig = classify(kind, m, delim, s, segs, got, req, opt, frames)
         whole = execute(kind, m, delim, (s,))
         if sig is None and got != whole and classify(kind, m, delim, s, (s,), whole, req, opt, frames) is None:
